@@ -179,6 +179,12 @@ class Engine:
                 raise OutOfReach(f"{self.c.key}: more than {getattr(self.c, 'max_paths', 4000)} paths")
             prefix = next_prefix(self.ch.trace)
         self.paths = seen
+        # staleness: an external whose calls the contract's obligations count (record_as) but which was never met on any path no
+        # longer occurs in the code under that name (e.g. a renamed local): the contract is out of date - undecided, not violated
+        hits = self.__dict__.get("_ext_hits", {})
+        for key_, summ_ in self.c.externals.items():
+            if summ_.get("record_as") and not summ_.get("optional") and not hits.get(key_) and not self._occurs_in_source(key_):
+                raise StaleContract(f"{self.c.key}: the contract counts calls of {key_!r}, which the code never makes under that name")
         # vacuity: at least one normal or exceptional exit must be reachable
         return self.vcs
 
@@ -2112,6 +2118,7 @@ class Engine:
         if base.k in ("obj", "opaque") and ("sub:" + ast.unparse(n)) in self.c.externals and not self.spec_mode:
             # a declared lookup on message-like data: a value of the declared sort (recorded in the ghost log when asked)
             summ_ = self.c.externals["sub:" + ast.unparse(n)]
+            self._hit_external(summ_)
             self.used_assumptions.append(f"lookup {ast.unparse(n)}: {summ_.get('doc', 'declared summary')}")
             res_ = self.ext_result(summ_, "sub_" + re.sub(r"\W+", "_", ast.unparse(n)))
             if summ_.get("record_as"):
@@ -3054,6 +3061,7 @@ class Engine:
 
     # ---- externals: declared effect summaries (assumptions, listed in evidence)
     def ext_call(self, summ: dict, d: str, n: ast.Call, recv: Optional[V] = None) -> V:
+        self._hit_external(summ)
         args = []
         for a in n.args:
             if isinstance(a, ast.Starred):
@@ -3141,6 +3149,40 @@ class Engine:
             for p in ([post] if isinstance(post, str) else post):
                 self.assume(self.clause_bool(p, self.st, self.st, env))
         return res
+
+    def _occurs_in_source(self, key: str) -> bool:
+        """does the verified function (or a helper inlined into it) contain a call / lookup written as this external key?"""
+        from .extract import extract
+        nodes = [self.x.node] if getattr(self.x, "node", None) is not None else []
+        for (rel_, qual_) in list(self.inlined):
+            try:
+                nodes.append(extract(rel_, qual_).node)
+            except StaleContract:
+                pass
+        for fn_ in nodes:
+            for n_ in ast.walk(fn_):
+                if key.startswith("sub:") and isinstance(n_, ast.Subscript) and ast.unparse(n_) == key[4:]:
+                    return True
+                if key.startswith("with:") and isinstance(n_, ast.With):
+                    for it_ in n_.items:
+                        ce_ = it_.context_expr
+                        if self.dotted(ce_.func if isinstance(ce_, ast.Call) else ce_) == key[5:]:
+                            return True
+                if key.startswith("attr:") and isinstance(n_, ast.Attribute) and self.dotted(n_) == key[5:]:
+                    return True
+                if isinstance(n_, ast.Call):
+                    d_ = self.dotted(n_.func)
+                    if d_ == key or (key.startswith("*.") and isinstance(n_.func, ast.Attribute) and n_.func.attr == key[2:]):
+                        return True
+                    if key.startswith("call:"):
+                        return True
+        return False
+
+    def _hit_external(self, summ):
+        hits = self.__dict__.setdefault("_ext_hits", {})
+        for k_, v_ in self.c.externals.items():
+            if v_ is summ:
+                hits[k_] = hits.get(k_, 0) + 1
 
     def _ext_havoc(self, summ, args):
         for path in summ.get("modifies", []):
